@@ -285,6 +285,8 @@ def unit_types_sweep():
             fld = fields.DecimalFieldFormat("d", False, "8" if name == "fixed" else "", rule, fmt_obj(name, dec, thou))
             lo, hi = (decimal.Decimal(x) if x else None for x in (rule.split("...") if rule else ("-9999999999999999999.999999999999", "9999999999999999999.999999999999")))
             plain = ["0", "1", "-1", "1.5", "-10.5", "-10.51", "100", "100.01", "99.999", "1234.5", "0.001"]
+            if name != "fixed":       # numerals with more significant digits than the default decimal context keeps (28): compared and returned exactly
+                plain += ["100.00000000000000000000000000001", "99.99999999999999999999999999999", "0.00000000000000000000000000000001", "-10.50000000000000000000000000001"]
             for p in plain:
                 d = decimal.Decimal(p); want = (lo is None or lo <= d) and (hi is None or d <= hi)
                 text = p.replace(".", dec)
@@ -299,7 +301,7 @@ def unit_types_sweep():
                 except errors.FieldValueError: pass
                 except Exception as e: return {"expected": "%r rejected with a FieldValueError" % bad, "observed": repr(e)}
             return None
-        res.append(sweep("C02/bounded/Decimal fields", dec_cases(), dec_check, "bounded", "6 format / separator conventions x 3 rules x 11 numerals written with the format's separators + malformed numerals",
+        res.append(sweep("C02/bounded/Decimal fields", dec_cases(), dec_check, "bounded", "6 format / separator conventions x 3 rules x 11 numerals (+ 4 with 29-33 significant digits) written with the format's separators + malformed numerals",
                          describe=lambda c: dict(zip(("format", "decimal_separator", "thousands_separator", "rule"), c)), function="fields.DecimalFieldFormat", unit="C02.types", props=["C02"]))
         # --- Choice / Constant
         def cc_check(c):
